@@ -74,7 +74,11 @@ func (c *ctx) product(what string, f func()) {
 			if _, ok := r.(violated); ok {
 				panic(r)
 			}
-			c.res.Violate(prop, "panic", "panic in "+what+": "+noDigits(firstLine(fmt.Sprint(r))), fmt.Sprint(r))
+			pp := prop
+			if c.opt.Property == "C18" {
+				pp = "C18" // the same run as a check of "no peer input panics the node"
+			}
+			c.res.Violate(pp, "panic", "panic in "+what+": "+noDigits(firstLine(fmt.Sprint(r))), fmt.Sprint(r))
 			panic(violated{})
 		}
 	}()
